@@ -92,6 +92,19 @@ def pipeExchange (declared : Bool) : SState → List InBatch → List VItem × T
           let r := pipeExchange declared { st with pos := st.pos + 1 } rest
           (collItems c.batches ++ r.1, r.2)
 
+/-- the lockstep loop of `serveStream` for a producer stream whose client keeps sending ticks -/
+def pipeProduce : List Tick → List VItem × Term
+  | [] => ([], .finished)               -- the script is exhausted: the scripted state finishes
+  | t :: rest =>
+    match runActs [] (Coll.new true) t with
+    | (_, some e) => ([], .error e)
+    | (c, none) =>
+      if !c.finished && c.dataIdx.isNone then ([], .error .noData)
+      else if c.finished then (collItems c.batches, .finished)
+      else
+        let r := pipeProduce rest
+        (collItems c.batches ++ r.1, r.2)
+
 def headerOf (rq : InitReq) : Option Nat :=
   match rq.hasHeader, rq.header with
   | true, some h => some h
@@ -105,11 +118,8 @@ def pipeRun (rq : InitReq) (inputs : List InBatch) : View :=
   | .ok =>
     let logs := rq.logs.map VItem.log
     if rq.st.producer then
-      let r := fullRun (rq.st.prog.drop rq.st.pos)
-      { header := headerOf rq, items := logs ++ viewItems r.1,
-        term := match r.2.2 with
-          | some e => .error e
-          | none => .finished }
+      let r := pipeProduce (rq.st.prog.drop rq.st.pos)
+      { header := headerOf rq, items := logs ++ r.1, term := r.2 }
     else
       let r := pipeExchange rq.declared rq.st inputs
       { header := headerOf rq, items := logs ++ r.1, term := r.2 }
@@ -130,15 +140,21 @@ def nextCursor : List RBatch → Option Val
 def continuationMeta (tok call : Val) (cancel : Bool) : Meta :=
   [(keyState, tok), (keyCall, call)] ++ (if cancel then [(keyCancel, .lit [49])] else [])
 
+/-- the exchange request a conformant client sends for one input -/
+def exchangeReq (inst : Nat) (dyn : Bool) (tok call : Val) (b : InBatch) : Req :=
+  { inst := inst, routeProducer := false, dynamic := dyn, md := continuationMeta tok call b.cancel,
+    vals := b.vals, schemaOk := b.kind != .bad, exact := b.kind = .same }
+
+/-- the continuation request a conformant client sends to a producer stream -/
+def produceReq (inst : Nat) (dyn : Bool) (tok call : Val) : Req :=
+  { inst := inst, routeProducer := true, dynamic := dyn, md := continuationMeta tok call false }
+
 /-- lockstep exchange over HTTP: one POST per input; request `n` goes to instance `route n` -/
 def httpExchange (cfg : Cfg) (route : Nat → Nat) (dyn : Bool) :
     List InBatch → Nat → World → Val → Val → List VItem × Term
   | [], _, _, _, _ => ([], .idle)
   | b :: rest, n, w, tok, call =>
-    let req : Req := { inst := route n, routeProducer := false, dynamic := dyn,
-                       md := continuationMeta tok call b.cancel, vals := b.vals,
-                       schemaOk := b.kind != .bad, exact := b.kind = .same }
-    let r := handleExchange cfg w req
+    let r := handleExchange cfg w (exchangeReq (route n) dyn tok call b)
     if b.cancel then ([], .cancelled)
     else match firstExc r.1.batches with
       | some e => ([], .error e)
@@ -154,9 +170,7 @@ def httpProduce (cfg : Cfg) (route : Nat → Nat) (dyn : Bool) :
     Nat → Nat → World → Val → Val → List VItem × Term
   | 0, _, _, _, _ => ([], .idle)
   | fuel + 1, n, w, tok, call =>
-    let req : Req := { inst := route n, routeProducer := true, dynamic := dyn,
-                       md := continuationMeta tok call false }
-    let r := handleExchange cfg w req
+    let r := handleExchange cfg w (produceReq (route n) dyn tok call)
     match firstExc r.1.batches with
     | some e => (viewItems r.1.batches, .error e)
     | none =>
